@@ -486,6 +486,10 @@ class Abs:
                 if fi is not None and kind == "getter":
                     return self._inline(fi, base, [], {})
                 raise Undecided("no summary for %s.%s" % (base.cls, attr))
+            if base is self.self_obj and self.self_class is not None and not attr.startswith("__"):
+                ga = self.self_class[0].resolve_method(self.self_class[1], "__getattr__")
+                if ga is not None:
+                    return self._inline(ga, base, [attr], {})      # the class's own fall-back for attributes that are not found
             ca = CTOR_ATTRS.get(base.cls, {}).get(attr)
             if ca is not None:
                 # the real constructor sets this attribute; the rule's abstract object did not provide it
@@ -646,8 +650,13 @@ class Abs:
             setter = self.summaries.get("set:%s.%s" % (args[0].cls, args[1]))
             if setter is not None:
                 setter(args[0], args[2])
+            elif args[0] is self.self_obj and self.self_class is not None and self.self_class[0].resolve_method(self.self_class[1], "__setattr__") is not None:
+                self._inline(self.self_class[0].resolve_method(self.self_class[1], "__setattr__"), args[0], [args[1], args[2]], {})
             else:
                 args[0].attrs[args[1]] = args[2]
+            return None
+        if dn == "object.__setattr__" and len(args) == 3 and isinstance(args[0], Obj):
+            args[0].attrs[args[1]] = args[2]
             return None
         if dn == "callable":
             return isinstance(args[0], tuple) and bool(args[0]) and args[0][0] in ("callable", "lambda", "bound", "sampler", "py", "func", "imeth", "closure", "method", "boundclosure")
@@ -819,8 +828,20 @@ class Abs:
 
     def isinstance(self, v, tnode):
         tn = tnode.elts if isinstance(tnode, ast.Tuple) else [tnode]
+        names = []
         for t in tn:
             name = dotted(t)
+            # a local alias of a class (T = np.random.RandomState; kinds = (int, float))
+            if isinstance(t, ast.Name) and name not in self.types and t.id in self.env:
+                val = self.env[t.id]
+                vals = list(val) if isinstance(val, (list, tuple)) and not (len(val) == 2 and val[0] in ("callable", "py")) else [val]
+                vals = [x[1] if isinstance(x, tuple) and len(x) == 2 and x[0] == "py" else x for x in vals]
+                vals = [("callable", x._abs_type) if isinstance(getattr(x, "_abs_type", None), str) else x for x in vals]
+                if vals and all(isinstance(x, tuple) and len(x) == 2 and x[0] == "callable" and isinstance(x[1], str) for x in vals):
+                    names.extend(x[1] for x in vals)
+                    continue
+            names.append(name)
+        for name in names:
             if name in self.types:
                 if self.types[name](v):
                     return True
@@ -865,6 +886,10 @@ class Abs:
                 setter = self.summaries.get("set:%s.%s" % (base.cls, t.attr))
                 if setter is not None:
                     setter(base, v)
+                elif base is self.self_obj and self.self_class is not None \
+                        and self.self_class[0].resolve_method(self.self_class[1], "__setattr__") is not None:
+                    # the class intercepts attribute assignment
+                    self._inline(self.self_class[0].resolve_method(self.self_class[1], "__setattr__"), base, [t.attr, v], {})
                 elif base is self.self_obj and self.self_class is not None and t.attr not in base.attrs \
                         and self.self_class[0].resolve_setter(self.self_class[1], t.attr) is not None:
                     # a property of the object's own class: the assignment runs its setter
@@ -1061,6 +1086,9 @@ class Abs:
                 return self._inline(c.methods[attr], self.self_obj, args, kw)
         if attr == "__init__":
             return None         # object.__init__
+        if attr == "__setattr__" and len(args) == 2:
+            self.self_obj.attrs[args[0]] = args[1]      # object.__setattr__
+            return None
         raise Raised("AttributeError(super has no %s)" % attr)
 
     def _inline(self, fi, self_obj, args, kw):
